@@ -483,7 +483,14 @@ private:
 			io_data &cont=self_->map_[fd];
 			cont.current_event = 0;
 			system::error_code e;
-			self_->reactor_->remove(fd,e);
+			if(fd == self_->interrupter_.get_fd()) {
+				// the descriptor was closed while this cancel was queued and its number went
+				// to the wake-up pipe: that one must stay selected or the loop can't be woken
+				self_->reactor_->select(fd,reactor::in,e);
+			}
+			else {
+				self_->reactor_->remove(fd,e);
+			}
 			e = system::error_code(aio_error::canceled,aio_error_cat);
 			BOOSTER_VERIF_EMIT("\"e\":\"CancelIo\",\"fd\":%d,\"io\":%lu",int(fd),verif_id(self_));
 #ifdef CPPCMS_VERIF
